@@ -217,6 +217,31 @@ def import_features(case):
     return list(case["ops"][1:]), (kinds if len(kinds) >= 2 else set())
 
 
+
+def lazy_features(case):
+    head = case["ops"][0] if case["ops"] else ""
+    kinds = set()
+    trace = [head.split()[-1] if head else "?"]
+    for op, obs in zip(case["ops"][1:], case["impl"][1:]):
+        w = op.split()
+        body = split_obs(obs)[0]
+        tag = w[0]
+        if tag == "range" and len(w) >= 3:
+            a, b = int(w[1]), int(w[2])
+            tag = "range:" + ("rev" if a > b else "empty" if a == b else "huge" if b > 10**9 else "in")
+            kinds.add(tag)
+        elif tag == "sorted":
+            kinds.add("sorted")
+        elif tag == "src":
+            kinds.add("source-rewritten")
+        elif tag == "map":
+            kinds.add("mapping")
+        if body.startswith("ok _") or body == "ok none" or body == "ok -":
+            kinds.add("nothing")
+        trace.append(tag + ":" + body[:12])
+    return trace, (kinds if len(kinds) >= 3 else set())
+
+
 VEC_RULE = (
     "histories generated by harness/src/vec_engine.rs over 14 format×type combinations (BytesVec u16/u64/u128/f32, ZeroCopyVec u32/u64, "
     "PcoVec u32/u64/i64/f64, LZ4Vec u64/u128, ZstdVec u16/u32), values incl. 0, MAX, sign boundary and random bit patterns, bulk pushes of "
@@ -249,6 +274,9 @@ ENGINES.append({"name": "codec", "path": "harness/src/codec_engine.rs + lean/Dri
 
 ENGINES.append({"name": "import", "path": "harness/src/import_engine.rs + lean/Driver/ImportProto.lean", "serves_properties": ["C14"],
      "kind_free_text": "exhaustive enumeration of (creation entry point, creation version, creation format) × (reopen entry point, version v-1/v/v+1, format) over the five formats: 300 create/flush/reopen/reopen-again experiments on real vectors compared with the Lean importVec and with the property's own expectations"})
+
+ENGINES.append({"name": "lazy", "path": "harness/src/lazy_engine.rs + lean/Driver/LazyProto.lean", "serves_properties": ["C15"],
+     "kind_free_text": "LazyVecFrom1/2/3, LazyDeltaVec<DeltaSub> and LazyAggVec<Sparse> over BytesVec sources that are rewritten and grow after construction; every range request goes through six range APIs which must agree, plus point and sorted reads; oracle = defining formula on plain vectors; canonical answers compared with the Lean model"})
 
 NOT_CLAIMED = {}
 
@@ -367,6 +395,18 @@ PROPS = {
         level_text="Lean 4 theorems over the import decision model with the layer constants, the number of VERSION additions per entry point, the reset arms of forced_import_with and the verification order extracted from the source: same entry point + same user version + same format ⇒ contents kept (C14_same_entry_kept / C14_partial); a plain import with a differing effective version or format fails with the matching error and leaves the stored data untouched (C14_plain_mismatch_untouched); a forced import discards if and only if the stored header fails verification with DifferentVersion/DifferentFormat, and then stores an empty vector of the requested version and format (C14_forced_discards_iff, C14_forced_result_empty, C14_reset_arms); the full statement (either entry point) is refuted on the model (C14_counterexample, C14_double_add) — known finding F2. The whole finite input space is run on real vectors and compared with the model (exhaustive).",
         level_note="Trusted: Lean kernel + standard axioms; extractor; hand-written model. F2 is an on-disk compatibility decision (which entry point's stored version is canonical) and is recorded, not repaired.",
         technique="Lean 4 proof over the import decision table built from extracted constants + exhaustive differential enumeration of the finite input space",
+    ),
+    "C15": dict(
+        lean="AnyDB.Props.C15",
+        runs=[
+            Run("lazy", "clean", [], (200, 40), (4000, 120), proj_all, ["C15", "panic"], lazy_features),
+            Run("lazy", "open", ["--open"], (100, 40), (2000, 120), proj_all, ["C15", "panic"], lazy_features, clean=False),
+        ],
+        rule="one lazy vector per case (five kinds in rotation); sources are rewritten from a random prefix and grow after the vector was built; mappings are monotone (clean stream: window start ≤ index, first indexes within the source; open stream also empty windows and indexes beyond the source); requests: ranges with ends in {0, len-1, len, len+1, 2^63-1, random} incl. reversed and empty, point reads, sorted index lists with duplicates and out-of-range entries; non-trivial = at least three of: in-range / reversed / empty / huge range, sorted read, rewritten source, mapping, a request answered with nothing; distinct = distinct (kind, request, answer-prefix) traces",
+        assumptions=["exact operations only (DeltaSub, integer compute functions); float delta ops are outside the statement's exactness"],
+        level_text="Lean 4 theorems over the transliterated read paths: a one-source lazy vector's range read is exactly the formula on [from, min(to,len)) (C15_from1_range); point reads of all arities are the formula and yield nothing beyond the governing length (C15_from_one, C15_from_oob, C15_from_range_oob); the delta vector's point read is source[h] - source[start-1] without panic whenever the window starts at or before h, nothing out of range (C15_delta_one, C15_delta_oob); the sparse aggregation's point read is the formula, nothing out of range (C15_agg_one, C15_agg_oob, C15_agg_range_oob). The two places where the code violates the property are kept as model counterexamples and replayed witnesses (F7, F8). The window arithmetic of the delta range path and the slot table of the aggregation range path are validated by the correspondence (six range APIs = formula = model) on clean mappings; their Lean range theorems are not done yet.",
+        level_note="Trusted: Lean kernel + standard axioms; hand-written model; harness. F22 (collect_range with a huge upper bound panicked) found here, repaired by a fix: commit.",
+        technique="Lean 4 proof over transliterated lazy read paths + differential run of all read APIs against the defining formula and the model",
     ),
     "C13": dict(
         lean="AnyDB.Props.C13",
